@@ -322,3 +322,53 @@ func ServeConfig(s *simrt.Sim, dir string, before func(cmd *exec.Cmd) error, fn 
 		return true, nil
 	}
 }
+
+// WriteBigWeekFile adds a counter file of a build the configuration approves,
+// holding enough distinct stack counters under an approved stack name (rate 1)
+// for the week's report to be about target bytes long. It reports whether the
+// configuration has such a build.
+func WriteBigWeekFile(t *simrt.Tape, dir string, begin time.Time, days int, cfg *CfgVersion, target int) bool {
+	rc := cfg.Ref
+	if len(rc.GoVersion) == 0 || len(rc.GOOS) == 0 || len(rc.GOARCH) == 0 {
+		return false
+	}
+	for _, p := range rc.Programs {
+		if len(p.Versions) == 0 {
+			continue
+		}
+		for _, st := range p.Stacks {
+			if st.Rate < 1 {
+				continue
+			}
+			bday := refcal.DayOfUnix(begin.Unix())
+			gv, ver := rc.GoVersion[0], p.Versions[0]
+			meta := refformat.MetaText([][2]string{
+				{"TimeBegin", refcal.RFC3339Midnight(bday)}, {"TimeEnd", refcal.RFC3339Midnight(bday + days)},
+				{"Program", p.Name}, {"Version", ver}, {"GoVersion", gv}, {"GOOS", rc.GOOS[0]}, {"GOARCH", rc.GOARCH[0]},
+			})
+			var pairs []refformat.Pair
+			for size, i := 0, 0; size < target; i++ {
+				var sb strings.Builder
+				sb.WriteString(st.Name)
+				for f := 0; sb.Len() < 2600+t.Draw(1200); f++ {
+					fmt.Fprintf(&sb, "\nexample.com/some/long/import/path/pkg%d.(*Type%d).Method%d:+%d,+0x%x", i, f, f, f+1, 16*f+i)
+				}
+				name := sb.String()
+				pairs = append(pairs, refformat.Pair{Name: name, Value: uint64(1 + t.Draw(9))})
+				size += len(name) + 20
+			}
+			data, err := refformat.Encode(meta, pairs, 0)
+			if err != nil {
+				return false
+			}
+			os.MkdirAll(dir, 0777)
+			base := p.Name[strings.LastIndex(p.Name, "/")+1:]
+			name := fmt.Sprintf("%s@%s-%s-%s-%s-%s.v1.count", base, ver, gv, rc.GOOS[0], rc.GOARCH[0], refcal.Date(bday))
+			if _, err := os.Stat(filepath.Join(dir, name)); err == nil {
+				return false
+			}
+			return os.WriteFile(filepath.Join(dir, name), data, 0666) == nil
+		}
+	}
+	return false
+}
